@@ -1,8 +1,215 @@
 import RisorModel.Util
-/-! Line-protocol front end of the C19 model (stub until the model exists). -/
+import RisorModel.C19.Model
+/-!
+Line-protocol front end of the C19 model (requests after the leading `C19` field).
+
+Values travel as space-separated tokens in prefix notation:
+`n` nil, `t`/`f` bool, `i<decimal>` int, `d<decimal>` float (IEEE bits), `y<n>` byte,
+`s<hex>` string, `b<hex>` byte_slice (`-` for empty), `l<count>` list (items follow),
+`m<count>` map (`s<hex>` key and value pairs follow, ascending raw keys).
+-/
 namespace Risor.C19
+open Risor.Util
+
+def natOfChars (cs : List Char) : Option Nat :=
+  if cs.isEmpty then none else
+  cs.foldl (fun acc c => match acc with
+    | none => none
+    | some n => if c.isDigit then some (n * 10 + (c.toNat - 48)) else none) (some 0)
+
+def intOfChars : List Char → Option Int
+  | '-' :: cs => (natOfChars cs).map fun n => -(Int.ofNat n)
+  | cs => (natOfChars cs).map Int.ofNat
+
+mutual
+  def parseVal : Nat → List String → Option (Val × List String)
+    | 0, _ => none
+    | _, [] => none
+    | fuel + 1, tok :: rest =>
+      match tok.toList with
+      | ['n'] => some (.nil, rest)
+      | ['t'] => some (.bool true, rest)
+      | ['f'] => some (.bool false, rest)
+      | 'i' :: cs => (intOfChars cs).map fun i => (.int i, rest)
+      | 'd' :: cs => (natOfChars cs).map fun n => (.float n, rest)
+      | 'y' :: cs => (natOfChars cs).map fun n => (.byte n, rest)
+      | 's' :: cs => (fromHex (String.ofList cs)).map fun b => (.str b, rest)
+      | 'b' :: cs => (fromHex (String.ofList cs)).map fun b => (.bytes b, rest)
+      | 'l' :: cs =>
+        match natOfChars cs with
+        | some n => (parseVals fuel n rest).map fun (xs, r) => (.list xs, r)
+        | none => none
+      | 'm' :: cs =>
+        match natOfChars cs with
+        | some n => (parseKVs fuel n rest).map fun (xs, r) => (.map xs, r)
+        | none => none
+      | _ => none
+  def parseVals : Nat → Nat → List String → Option (Vals × List String)
+    | 0, _, _ => none
+    | _, 0, rest => some (.nil, rest)
+    | fuel + 1, n + 1, rest =>
+      match parseVal fuel rest with
+      | some (v, r) => (parseVals fuel n r).map fun (vs, r') => (.cons v vs, r')
+      | none => none
+  def parseKVs : Nat → Nat → List String → Option (KVs × List String)
+    | 0, _, _ => none
+    | _, 0, rest => some (.nil, rest)
+    | fuel + 1, n + 1, rest =>
+      match rest with
+      | ktok :: rest' =>
+        match ktok.toList with
+        | 's' :: cs =>
+          match fromHex (String.ofList cs), parseVal fuel rest' with
+          | some k, some (v, r) => (parseKVs fuel n r).map fun (kvs, r') => (.cons k v kvs, r')
+          | _, _ => none
+        | _ => none
+      | [] => none
+end
+
+def parseField (s : String) : Option Val :=
+  let toks := (s.splitOn " ").filter (· ≠ "")
+  match parseVal (2 * toks.length + 4) toks with
+  | some (v, []) => some v
+  | _ => none
+
+def Vals.length : Vals → Nat
+  | .nil => 0
+  | .cons _ r => Vals.length r + 1
+def KVs.length : KVs → Nat
+  | .nil => 0
+  | .cons _ _ r => KVs.length r + 1
+
+def showInt (i : Int) : String := if i < 0 then "-" ++ toString i.natAbs else toString i.natAbs
+
+mutual
+  def showVal : Val → String
+    | .nil => "n"
+    | .bool true => "t"
+    | .bool false => "f"
+    | .int i => "i" ++ showInt i
+    | .float b => "d" ++ toString b
+    | .byte n => "y" ++ toString n
+    | .str s => "s" ++ toHexField s
+    | .bytes s => "b" ++ toHexField s
+    | .list xs => "l" ++ toString (Vals.length xs) ++ showVals xs
+    | .map kvs => "m" ++ toString (KVs.length kvs) ++ showKVs kvs
+  def showVals : Vals → String
+    | .nil => ""
+    | .cons v r => " " ++ showVal v ++ showVals r
+  def showKVs : KVs → String
+    | .nil => ""
+    | .cons k v r => " s" ++ toHexField k ++ " " ++ showVal v ++ showKVs r
+end
+
+def showOpt : Option Val → String
+  | some v => showVal v
+  | none => "err"
+
+def Vals.toList : Vals → List Val
+  | .nil => []
+  | .cons v r => v :: Vals.toList r
+
+mutual
+  def anyNonExactInt : Val → Bool
+    | .int i => !intExact i
+    | .list xs => anyNonExactInts xs
+    | .map kvs => anyNonExactIntk kvs
+    | _ => false
+  def anyNonExactInts : Vals → Bool
+    | .nil => false
+    | .cons v r => anyNonExactInt v || anyNonExactInts r
+  def anyNonExactIntk : KVs → Bool
+    | .nil => false
+    | .cons _ v r => anyNonExactInt v || anyNonExactIntk r
+end
+
+mutual
+  def anyBadUtf8 : Val → Bool
+    | .str s => !validUtf8 s
+    | .bytes s => !validUtf8 s
+    | .list xs => anyBadUtf8s xs
+    | .map kvs => anyBadUtf8k kvs
+    | _ => false
+  def anyBadUtf8s : Vals → Bool
+    | .nil => false
+    | .cons v r => anyBadUtf8 v || anyBadUtf8s r
+  def anyBadUtf8k : KVs → Bool
+    | .nil => false
+    | .cons k v r => !validUtf8 k || anyBadUtf8 v || anyBadUtf8k r
+end
+
+def flags (v : Val) : String :=
+  let fs := (if isNil v then ["nil"] else []) ++ (if noBytes v then [] else ["bytes"]) ++
+    (if anyNonExactInt v then ["int"] else []) ++ (if anyBadUtf8 v then ["utf8"] else [])
+  if fs.isEmpty then "-" else ",".intercalate fs
+
+def parseCodec (s : String) : Option (Bytes → Bytes) × Option (Bytes → Option Bytes) :=
+  match s with
+  | "hex" => (some hexEnc, some hexDec)
+  | "base64" => (some (b64Enc false true), some (b64Dec false true))
+  | "base32" => (some b32Enc, some b32Dec)
+  | "urlquery" => (some qEsc, some qUnesc)
+  | "b64-std-pad" => (some (b64Enc false true), some (b64Dec false true))
+  | "b64-std-raw" => (some (b64Enc false false), some (b64Dec false false))
+  | "b64-url-pad" => (some (b64Enc true true), some (b64Dec true true))
+  | "b64-url-raw" => (some (b64Enc true false), some (b64Dec true false))
+  | _ => (none, none)
+
+def showOut : Out → String
+  | .val v => "val\t" ++ showVal v
+  | .argsErr => "argsErr"
+  | .typeErr => "typeErr"
+  | .panic => "panic"
+
+def goValOf : Val → Option GoVal
+  | .str s => some (.str s)
+  | .int i => some (.int i)
+  | .bool b => some (.bool b)
+  | .list xs => (Vals.toStrs xs).map .strs
+  | .bytes s => some (.bytes s)
+  | _ => none
 
 def handle : List String → String
-  | _ => "error\tnot-implemented"
+  | ["enc", c, x] =>
+    match (parseCodec c).1, fromHex x with
+    | some f, some b => toHexField (f b)
+    | _, _ => "error\tbad-request"
+  | ["dec", c, x] =>
+    match (parseCodec c).2, fromHex x with
+    | some f, some b =>
+      match f b with
+      | some r => "ok\t" ++ toHexField r
+      | none => "reject"
+    | _, _ => "error\tbad-request"
+  | ["json", v] =>
+    match parseField v with
+    | some v =>
+      showOpt (codecRoundtrip v) ++ "\t" ++ showOpt (marshalRoundtrip v) ++ "\t" ++
+        toString (showOpt (encCodec v) == showOpt (encM v)) ++ "\t" ++ toString (codecOk v) ++ "\t" ++ flags v
+    | none => "error\tbad-value"
+  | ["glue", name, args, res] =>
+    match findSig name, parseField args with
+    | some sig, some (.list xs) =>
+      let f : GoFun := fun _ =>
+        if res = "panic" then none else (parseField res).bind goValOf
+      showOut (wrap sig f (Vals.toList xs))
+    | none, _ => "nosig"
+    | _, _ => "error\tbad-value"
+  | ["panics", name, args] =>
+    match findSig name, parseField args with
+    | some sig, some (.list xs) =>
+      match projectAll sig.args (Vals.toList xs) with
+      | some gs => toString (goPanics sig.go gs)
+      | none => "false"
+    | _, _ => "error\tbad-value"
+  | ["f64", i] =>
+    match intOfChars i.toList with
+    | some i => toString (f64OfInt i) ++ "\t" ++ toString (intExact i)
+    | none => "error\tbad-int"
+  | ["sanitize", x] =>
+    match fromHex x with
+    | some b => toHexField (sanitize b)
+    | none => "error\tbad-hex"
+  | _ => "error\tunknown-request"
 
 end Risor.C19
